@@ -120,6 +120,9 @@ structure RSAPrivate where
   q : Nat
   /-- the optional CRT members dp dq qi (RFC 7518 §6.3.2.4–6) -/
   crt : Option (Nat × Nat × Nat)
+  /-- RFC 7518 §6.3.2.7 "oth": one (r, d, t) per prime after the second — the prime factor r_i,
+      d_i = d mod (r_i − 1), t_i = (r_1 ⋯ r_(i−1))⁻¹ mod r_i; MUST be present with more than two primes -/
+  oth : List (Nat × Nat × Nat) := []
 deriving DecidableEq, Repr
 
 inductive KeyMaterial where
@@ -147,6 +150,13 @@ def optMember {α} (name : String) (f : α → Wire) : Option α → List (Strin
   | some a => [(name, f a)]
   | none => []
 
+/-- one element of "oth" (RFC 7518 §6.3.2.7.1–3): members r, d, t as Base64urlUInt -/
+def othElement (enc : Bytes → String) : Nat × Nat × Nat → Wire
+  | (r, d, t) => .obj [("d", .str (enc (minOctets d))), ("r", .str (enc (minOctets r))), ("t", .str (enc (minOctets t)))]
+
+def othMember (enc : Bytes → String) (oth : List (Nat × Nat × Nat)) : List (String × Wire) :=
+  if oth = [] then [] else [(mOth, .arr (oth.map (othElement enc)))]
+
 /-- key-type specific members; `enc` is base64url (RFC 4648 §5, no padding) -/
 def materialMembers (enc : Bytes → String) : KeyMaterial → List (String × Wire)
   | .ec crv x y d =>
@@ -161,7 +171,8 @@ def materialMembers (enc : Bytes → String) : KeyMaterial → List (String × W
             ++ (match r.crt with
                 | none => []
                 | some (dp, dq, qi) =>
-                  [(mDP, .str (enc (minOctets dp))), (mDQ, .str (enc (minOctets dq))), (mQI, .str (enc (minOctets qi)))]))
+                  [(mDP, .str (enc (minOctets dp))), (mDQ, .str (enc (minOctets dq))), (mQI, .str (enc (minOctets qi)))])
+            ++ othMember enc r.oth)
   | .okp crv x d =>
       [(mCrv, .str crv.name), (mX, .str (enc x))] ++ optMember mD (fun d => .str (enc d)) d
   | .oct k => [(mK, .str (enc k))]
